@@ -22,7 +22,8 @@ def run(ck):
     cpucheck.run(ck, "C07", "cpu-c07",
                  "families: all generators, weighted towards err (division by zero through div/rem, taken branch/jump to an undefined label) and br; all 12 variants; "
                  "verdict: the run returns (no Go panic, no tick-budget or wall-clock hang), returns an error exactly when the sequential run reaches a defined error, "
-                 "and its cycle count is at most 8 x MemoryAccess x (executed instructions + 64)", judge=judge)
+                 "and its cycle count is at most 8 x MemoryAccess x (executed instructions + 64)", judge=judge,
+                 theorems=["MajoranaVerif.Props.C07"])
 
 
 def replay(ck, path):
